@@ -355,12 +355,11 @@ def reach_def(ct, cls: str, Sx: Any, regex_maxlen_fixed: bool = True) -> List[An
         j = z3.Int("rj")
         f.append(z3.Implies(D("types"), z3.And(
             M.llen(t) > 0,
-            z3.ForAll([j], z3.Implies(z3.And(0 <= j, j < M.llen(t)), reach(M.lat(t, j))), patterns=[M.lat(t, j)]),
-            # the alternatives are flat: no alternative is itself a declared union (AnySchema.__call__ flattens; every
-            # other producer of a union has to keep it that way -- repr / eval round-trips rely on it, C06)
-            z3.ForAll([j], z3.Implies(z3.And(0 <= j, j < M.llen(t)),
-                                      z3.Not(z3.And(M.isinstance_f(ct, M.lat(t, j), "AnySchema"),
-                                                    declared(M.lat(t, j), "types")))), patterns=[M.lat(t, j)]))))
+            z3.ForAll([j], z3.Implies(z3.And(0 <= j, j < M.llen(t)), reach(M.lat(t, j))), patterns=[M.lat(t, j)]))))
+        # (flatness of the alternatives -- no alternative is itself a declared union -- is deliberately NOT part of this
+        # recursive definition: stated here it made the unfolding axiom of AnySchema re-trigger itself on the Skolem
+        # witness of its own negation, a matching loop that exhausted memory; it is a separate clause of the producers
+        # `AnySchema.__call__` / `union` and a precondition of `Representor.visit_any`)
     if cls == "TypeAliasSchema":
         r = reg_of(Sx)
         f.append(z3.Implies(M.has(r, S_("type")), reach(M.dget(r, S_("type")))))
